@@ -759,13 +759,16 @@ class MapOverlapAlign(Expr):
             arg._meta if isinstance(arg, Expr) else arg
             for arg in self.operands[len(self._parameters) :]
         ]
+        # Don't mutate the ``kwargs`` operand, it is part of our name
+        kwargs = dict(self.kwargs)
+        parent_meta = kwargs.pop("parent_meta", None)
         return _get_meta_map_partitions(
             args,
             [self.dependencies()[0]],
             self.func,
-            self.kwargs,
+            kwargs,
             meta,
-            self.kwargs.pop("parent_meta", None),
+            parent_meta,
         )
 
     def _divisions(self):
@@ -820,7 +823,8 @@ class MapOverlap(MapPartitions):
         kwargs = self.kwargs
         if kwargs is None:
             kwargs = {}
-        return kwargs
+        # ``parent_meta`` is only used to infer the metadata
+        return {k: v for k, v in kwargs.items() if k != "parent_meta"}
 
     @property
     def args(self):
@@ -837,13 +841,16 @@ class MapOverlap(MapPartitions):
             arg._meta if isinstance(arg, Expr) else arg
             for arg in self.operands[len(self._parameters) :]
         ]
+        # Don't mutate the ``kwargs`` operand, it is part of our name
+        kwargs = dict(self.kwargs)
+        parent_meta = kwargs.pop("parent_meta", None)
         return _get_meta_map_partitions(
             args,
             [self.dependencies()[0]],
             self.func,
-            self.kwargs,
+            kwargs,
             meta,
-            self.kwargs.pop("parent_meta", None),
+            parent_meta,
         )
 
     @functools.cached_property
